@@ -1,3 +1,4 @@
+import RadicaleProofs.TraceEffect
 import RadicaleProofs.Dav
 import RadicaleProofs.DavStore
 /-
@@ -155,5 +156,74 @@ theorem no_update_no_change (cfg : Cfg) (rights : Rights) (user : String) (s : S
     simp only at h
     subst h
     rfl
+
+/-! ### file-system level: what the storage calls do to the tree of files clients can see
+
+  `Trace.FS` is a partial map from paths to nodes, `Trace.apply` the effect of one system call (mkdir, open, write,
+  rename, exchange, unlink, rmtree), and `Trace.upload` … `Trace.createCollection` the exact call sequences of the
+  multifilesystem back-end (tied to the code by the system-call correspondence of C02 / C12).  A path is visible when
+  none of its components is a lock, cache or temporary name.  These theorems are the functional half of the
+  refinement "file system ⊑ ideal store" (C02 has the crash half): each storage call changes exactly the names the
+  ideal operation changes. -/
+
+open Radicale.Trace in
+/-- **the last successful write to a name wins and nothing else appears or disappears** -/
+theorem fs_upload (fsync : Bool) (coll : FPath) (href : Comp) (k : Nat) (fs : FS)
+    (hfresh : Fresh fs (coll ++ [tmpName k])) (q : FPath) (hq : hidden q = false) :
+    applyAll fs (upload fsync coll href k) q =
+      if q = coll ++ [href] then some (.file true) else if isPrefix (coll ++ [href]) q then none else fs q :=
+  upload_effect fsync coll href k fs hfresh q hq
+
+open Radicale.Trace in
+/-- **a deleted name is gone, and only that name** -/
+theorem fs_delete_item (fsync : Bool) (coll : FPath) (href : Comp) (fs : FS) (q : FPath) :
+    applyAll fs (deleteItem fsync coll href) q = if q = coll ++ [href] then none else fs q :=
+  deleteItem_effect fsync coll href fs q
+
+open Radicale.Trace in
+/-- **a moved-away name is gone, the object is under the new name, nothing else changes** -/
+theorem fs_move (fsync : Bool) (c1 : FPath) (h1 : Comp) (c2 : FPath) (h2 : Comp) (fs : FS)
+    (hfile : ∀ c rs, fs (c1 ++ [h1] ++ c :: rs) = none) (q : FPath) :
+    applyAll fs (move fsync c1 h1 c2 h2) q =
+      if q = c2 ++ [h2] then fs (c1 ++ [h1]) else if isPrefix (c2 ++ [h2]) q then none
+      else if isPrefix (c1 ++ [h1]) q then none else fs q :=
+  move_effect fsync c1 h1 c2 h2 fs hfile q
+
+open Radicale.Trace in
+/-- **a created or replaced collection contains only the new objects**: afterwards there is, at and below the
+    collection, exactly the directory, its properties file and one file per uploaded object — whether the
+    collection existed before (`existsTarget`, any previous content) or not — and every other visible path is
+    unchanged -/
+theorem fs_replace_collection (fsync : Bool) (coll : FPath) (items : Option (List Comp)) (missing : Nat)
+    (hm : missing ≤ 1) (existsTarget : Bool) (k : Nat) (cacheInColl : Bool) (fs : FS)
+    (hfresh : Fresh fs (coll.dropLast ++ [tmpName k])) (q : FPath) (hq : hidden q = false) :
+    applyAll fs (createCollection fsync coll true items missing existsTarget k cacheInColl) q =
+      if isPrefix coll q then newCollNode items (q.drop coll.length) else fs q :=
+  createCollection_effect fsync coll items missing hm existsTarget k cacheInColl fs hfresh q hq
+
+open Radicale.Trace in
+/-- **a deleted collection is gone with everything below it, and nothing else** -/
+theorem fs_delete_collection (fsync : Bool) (coll : FPath) (empty : Bool) (k : Nat) (fs : FS)
+    (hempty : empty = true → ∀ c rs, fs (coll ++ c :: rs) = none) (q : FPath) (hq : hidden q = false) :
+    applyAll fs (deleteColl fsync coll empty k) q = if isPrefix coll q then none else fs q :=
+  deleteColl_effect fsync coll empty k fs hempty q hq
+
+open Radicale.Trace in
+/-- properties are replaced as one file; members are untouched -/
+theorem fs_set_meta (fsync : Bool) (coll : FPath) (k : Nat) (fs : FS)
+    (hfresh : Fresh fs (coll ++ [tmpName k])) (q : FPath) (hq : hidden q = false) :
+    applyAll fs (setMeta fsync coll k) q =
+      if q = coll ++ [propsName] then some (.file true) else if isPrefix (coll ++ [propsName]) q then none else fs q :=
+  setMeta_effect fsync coll k fs hfresh q hq
+
+-- non-vacuity: replacing a calendar that held x.ics and y.ics by one holding a.ics
+private def cal : Radicale.Trace.FPath := ["collection-root".toList, "u".toList, "cal".toList]
+private def fsOld : Radicale.Trace.FS := fun p =>
+  if p = cal ∨ p = cal.dropLast ∨ p = cal.dropLast.dropLast then some .dir
+  else if p = cal ++ ["x.ics".toList] ∨ p = cal ++ ["y.ics".toList] ∨ p = cal ++ [Radicale.Trace.propsName] then some (.file true) else none
+example : Radicale.Trace.applyAll fsOld (Radicale.Trace.createCollection true cal true (some ["a.ics".toList]) 0 true 0) (cal ++ ["x.ics".toList]) = none ∧
+    Radicale.Trace.applyAll fsOld (Radicale.Trace.createCollection true cal true (some ["a.ics".toList]) 0 true 0) (cal ++ ["a.ics".toList]) = some (.file true) ∧
+    Radicale.Trace.applyAll fsOld (Radicale.Trace.createCollection true cal true (some ["a.ics".toList]) 0 true 0) cal = some .dir := by
+  decide +kernel
 
 end C01
